@@ -262,7 +262,9 @@ macro_rules! serde_q {
             type QT = uom::si::$m::$Q<$U<$V>, $V>;
             let mut rng = Rng::new($cx.seed).fork(hash_str(concat!(stringify!($V), $bname, stringify!($m), "serde")));
             let mut texts: Vec<String> = vec!["1".into(), "1.5".into(), "\"1\"".into(), "null".into(), "[1,2]".into(), "{}".into(), "-0.0".into(), "1e400".into(),
-                "true".into(), "[1,1]".into(), "[\"1\",\"2\"]".into(), "\"3/4\"".into(), "".into(), "1 ".into(), "[[1],[1]]".into(), "18446744073709551616".into(), "-1".into(), "[1,[1]]".into()];
+                "true".into(), "[1,1]".into(), "[\"1\",\"2\"]".into(), "\"3/4\"".into(), "".into(), "1 ".into(), "[[1],[1]]".into(), "18446744073709551616".into(), "-1".into(), "[1,[1]]".into(),
+                // non-canonical encodings a rational storage type accepts as they are (`Ratio::new_raw`): unreduced, negative denominator, zero numerator
+                "[2,4]".into(), "[1,-2]".into(), "[0,5]".into(), "[-6,-4]".into(), "-0".into(), "0.0".into()];
             for k in 0..$cx.n {
                 let v = <$V as Val>::gen(&mut rng, k);
                 let q = QT { dimension: PhantomData, units: PhantomData, value: v.clone() };
